@@ -28,17 +28,19 @@ int64_t lat(double x, double scale = Unit)
     return out;
 }
 
-std::vector<int64_t> lats(const std::vector<double>& xs)
+template <class tvalue>
+std::vector<int64_t> lats(const std::vector<tvalue>& xs)
 {
     std::vector<int64_t> out;
     for (const auto x : xs)
     {
-        out.push_back(lat(x));
+        out.push_back(lat(static_cast<double>(x)));
     }
     return out;
 }
 
-void pct_case(const std::vector<double>& values, int64_t p8)
+template <class tvalue>
+void pct_case(const std::vector<tvalue>& values, int64_t p8)
 {
     const double p = static_cast<double>(p8) / 8.0;
     {
@@ -213,6 +215,8 @@ int main(int argc, char* argv[])
         }
         pct_case(values, rng.range(0, 800));
         pct_case(values, rng.pick(std::vector<int64_t>{0, 400, 800}));
+        pct_case(ivalues, 8 * rng.range(0, 100)); // integer lists (the result is a real number: midpoints)
+        pct_case(ivalues, rng.pick(std::vector<int64_t>{0, 400, 800}));
         const auto          nthr = rng.range(1, 20);
         std::vector<double> thr, qs;
         for (int64_t k = 0; k < nthr; ++k)
@@ -241,6 +245,14 @@ int main(int argc, char* argv[])
         }
         hist_case(values, "ratios", ratios, qs);
         hist_case(values, "percentiles", percentiles, qs);
+        hist_case(ivalues, "ratios", ratios, qs);
+        hist_case(ivalues, "percentiles", percentiles, qs);
+        if (rng.coin(1, 3))
+        {
+            // the ends of the ratio / percentile ranges as arguments
+            hist_case(values, "ratios", {0.0, 0.5, 1.0}, qs);
+            hist_case(values, "percentiles", {0.0, 50.0, 100.0}, qs);
+        }
         // exponents with base 2 on values that are not zero
         std::vector<double> pvalues;
         for (const auto v : values)
